@@ -81,6 +81,15 @@ def oracle(line, out):
         comps = unstr(tok[2]).split("/")[1:]
         ls = [int(c) for c in comps]
         t = "0"
+    elif tok[0] == "xk_parse" and len(tok) == 6:
+        # public-only data (an extended PUBLIC key) loaded through either node class, then derived along a path
+        raw = b58check_dec(unstr(tok[4])) if tok[3] == "s" else unhex(tok[4])
+        depth, index = raw[4], int.from_bytes(raw[9:13], "big")
+        chain, key = hx(raw[13:45]), hx(raw[45:78])
+        ls = impl.unlist(int, tok[5])
+        t = tok[2]
+        if tok[1] == "P" and v is None:
+            return None         # the private class refusing to work on public data hands out nothing
     elif tok[0] == "ckd":
         spec, ls = tok[1], impl.unlist(int, tok[2])
         cls, key, chain, depth, index, t, fp = spec.split(":")
@@ -200,8 +209,30 @@ def _bulk_cases(rng, tier):
             yield "gen_step %s %d %d %d %d -" % (pub, ar, a, b, st), "bulk-interval-shape"
 
 
+def _other_class_cases(rng, tier):
+    """an extended PUBLIC key loaded with PrvKeyNode.parse (the classmethod builds `cls`; BaseWallet.from_extended_key
+    itself parses every key with the private class first to read its version) and with PubKeyNode.parse, in every input
+    form, then derived: public-only data never yields a hardened child, and what it yields on a normal path is the
+    CKDpub child"""
+    from .c07 import payload, pub_sec, ALL, VERS_TEST
+    H = 2 ** 31
+    for _ in range(3 if tier == "quick" else 60):
+        k = rng.randrange(1, N)
+        name = rng.choice([n_ for n_ in ALL if n_.endswith("pub")])
+        pl = payload(ALL[name], rng.choice([0, 1, 3]), bytes(rng.getrandbits(8) for _ in range(4)), rng.choice([0, 5, H + 1]),
+                     bytes(rng.getrandbits(8) for _ in range(32)), pub_sec(k))
+        tn = "1" if name in VERS_TEST else "0"
+        for ls in ([H], [0], [rng.randrange(H)], [1, H + 5], [2 ** 32 - 1], [0, 1, 2]):
+            for cls in ("P", "p"):
+                form = rng.choice(["s", "b", "io"])
+                arg = sx(b58check_enc(pl)) if form == "s" else hx(pl)
+                yield "xk_parse %s %s %s %s %s" % (cls, tn, form, arg, impl.lst(str, ls)), \
+                    "public-key-through-%s-class" % ("private" if cls == "P" else "public")
+
+
 def cases(rng, tier):
     yield from _cases_main(rng, tier)
+    yield from _other_class_cases(rng, tier)
     yield from _bulk_cases(rng, tier)
     yield from _hist_cases(rng, tier)
     yield from collision_cases(rng, tier, neuter_fn=neuter)
